@@ -106,11 +106,15 @@ func reshareEd(r *Run, rng *rand.Rand, ks *edKeySet, oldSub []int, newN, newT in
 		w.heldXi = append(w.heldXi, oldKeys[i].Xi)
 		w.origXi = append(w.origXi, new(big.Int).Set(oldKeys[i].Xi))
 	}
-	net.OnEvent = w.onEvent
+	waits := map[int][]string{}
+	net.OnEvent = recordWaiting(len(oldPIDs), waits, w.onEvent)
 	net.Run(rng, st, 300000)
 	r.Evals++
 	r.Traces++
 	r.Dist["eddsa-resharing/"+st.Name]++
+	if !st.Duplicate || true {
+		engine2Check(r, "eddsa-resharing", net, len(oldPIDs), waits)
+	}
 	ok := len(net.Panics) == 0
 	for _, nd := range net.Nodes {
 		if len(nd.Ends) != 1 || nd.Err != nil {
@@ -177,11 +181,13 @@ func reshareEc(r *Run, rng *rand.Rand, ks *ecKeySet, oldSub []int, newN, newT in
 		w.heldXi = append(w.heldXi, oldKeys[i].Xi)
 		w.origXi = append(w.origXi, new(big.Int).Set(oldKeys[i].Xi))
 	}
-	net.OnEvent = w.onEvent
+	waits := map[int][]string{}
+	net.OnEvent = recordWaiting(len(oldPIDs), waits, w.onEvent)
 	net.Run(rng, st, 300000)
 	r.Evals++
 	r.Traces++
 	r.Dist[fmt.Sprintf("ecdsa-resharing/%s/proofs=%v", st.Name, proofs)]++
+	engine2Check(r, "ecdsa-resharing", net, len(oldPIDs), waits)
 	ok := len(net.Panics) == 0
 	for _, nd := range net.Nodes {
 		if len(nd.Ends) != 1 || nd.Err != nil {
